@@ -132,6 +132,8 @@ pub struct FarmWorld {
     pub epoch: u64,
     pub epoch0: u64,
     pub max_nonce: u64,
+    /// highest LOCKED-token nonce seen as a reward payment (fwlr: the wallets' LOCKED balances are summed over 1..=max_lk+2)
+    pub max_lk: u64,
     /// executed op texts (for the twin world of state-settling views)
     pub log: Vec<String>,
     pub led: super::oracle::Ledger,
@@ -295,7 +297,7 @@ impl FarmWorld {
         }
         FarmWorld {
             b, kind, same, header: header.to_string(), owner, users, farm, fwlr, mock, ef, hub,
-            block: 0, epoch: epoch0, epoch0, max_nonce: 0, log: vec![],
+            block: 0, epoch: epoch0, epoch0, max_nonce: 0, max_lk: 0, log: vec![],
             led: super::oracle::Ledger::default(), pending: vec![], hub_pairs: vec![], hits: vec![], last_quote: None,
         }
     }
@@ -453,7 +455,17 @@ impl FarmWorld {
         let top = self.max_nonce + 2;
         for (i, a) in user_addrs.iter().enumerate() {
             users[i].farming = self.b.get_esdt_balance(a, ft, 0);
-            users[i].rew = self.b.get_esdt_balance(a, REWARD, 0);
+            // reward wallet: the reward token itself (farm) / every LOCKED token the energy factory minted for the account (fwlr)
+            users[i].rew = match self.kind {
+                Kind::Farm => self.b.get_esdt_balance(a, REWARD, 0),
+                Kind::Fwlr => {
+                    let mut t = BigUint::zero();
+                    for n in 1..=(self.max_lk + 2) {
+                        t += self.b.get_esdt_balance(a, LOCKED, n);
+                    }
+                    t
+                }
+            };
             for n in 1..=top {
                 let h = self.b.get_esdt_balance(a, FARM, n);
                 if !h.is_zero() {
@@ -526,11 +538,14 @@ impl FarmWorld {
         format!(
             "rps={} res={} sup={} last={} pb={} prod={} pct={} act={} pen={},{} bal={},{} blk={} ep={} wk={} \
              gen={} paid={} pbase={} pboost={} bud={} burn={} und={} lc={} cfg={} g={},{} wks={} U {} T {} \
-             led=cut:{};paid:{};coll:{}",
+             led=cut:{};paid:{};coll:{} rw={}",
             s.rps, s.res, s.sup, s.last, s.pb, b01(s.prod), s.pct, b01(s.act), s.pen, s.minep, s.bal_f, s.bal_r,
             self.block, self.epoch, s.week, l.generated, l.paid, l.paid_base, l.paid_boosted, l.base_budget, l.burned,
             s.und, s.lc, cfg, s.g_last, s.g_first, wks.join(" "), us.join(" "), ts.join(" "),
-            wmap(&l.cut_w), wmap(&l.paid_w), wmap(&l.collected_w)
+            wmap(&l.cut_w), wmap(&l.paid_w), wmap(&l.collected_w),
+            // every user's REAL wallet: farming-token balance, reward-token balance (farm: REWARD; fwlr: Σ LOCKED); users start
+            // with nothing and are funded deterministically by `ensure_farming`, so absolute balances are comparable
+            s.users.iter().map(|u| format!("{},{}", u.farming, u.rew)).collect::<Vec<_>>().join(";")
         )
     }
 
@@ -932,6 +947,9 @@ impl FarmWorld {
         }
         if res.ok && res.tok_nonce > self.max_nonce {
             self.max_nonce = res.tok_nonce;
+        }
+        if res.ok && self.kind == Kind::Fwlr && res.rew_nonce > self.max_lk {
+            self.max_lk = res.rew_nonce;
         }
         self.log.push(text.to_string());
         res
